@@ -53,9 +53,10 @@ def items(tier, seed):
         for n in L:
             out.append(("magic", fmt, n, tier))
     # Mach-O with exactly one load command of <= 16 bytes declared: the command type and size stay symbolic
-    for csz in (0, 8, 24):
+    for csz in ((0, 8) if tier == "quick" else (0, 8, 24)):
         out.append(("focus", "macho64", 56, "one-load-command", csz, tier))
-        out.append(("focus", "macho32", 52, "one-load-command", csz, tier))
+        if tier != "quick":
+            out.append(("focus", "macho32", 52, "one-load-command", csz, tier))
     return out
 
 
@@ -114,7 +115,7 @@ def run_item(item):
     # a path that makes the parser allocate without bound must end (MemoryError is then the reported outcome)
     try:
         import resource
-        resource.setrlimit(resource.RLIMIT_AS, (8 << 30, 8 << 30))
+        resource.setrlimit(resource.RLIMIT_AS, (4 << 30, 4 << 30))
     except Exception:
         pass
     res = {"states": 0, "transitions": 0, "obligations": 0, "discharged": 0, "inconclusive": 0, "incomplete_explorations": 0,
